@@ -282,6 +282,61 @@ def item_edits(ctx, r, text, ac, pool, ecases, emetas):
             return
 
 
+GLUED_ITEM_TEXTS = [
+    # (ledger, public property of the first directive): an item written right against the next one; popping it keeps
+    # the blanks in front of it (RepeatedNodeWrapper._del_tokens, fixes/repeated-remove-keeps-separator-when-glued.patch)
+    ('2000-01-01 custom "x" 1 "s"2 3\n', 'raw_values'),
+    ('2000-01-01 custom "x" 1  "s"2 "t"3\n', 'raw_values'),
+    ('2000-01-01 custom "x" 1 "s"(2) "t" 3\n', 'raw_values'),
+    ('2000-01-01 * "a" #a ^l#b ^m\n', 'raw_tags_links'),
+    ('2000-01-01 * "a" #a\t^l#b ^m^n\n', 'raw_tags_links'),
+    ('2000-01-01 note Assets:A "n" #a ^l#b\n', 'raw_tags_links'),
+]
+
+
+def glued_item_removals(ctx, r, ecases, emetas):
+    """`raw_xs.pop(i)` / `del raw_xs[i]` for every i on ledgers in which an item touches the next one (`"s"2`,
+    `^l#b`): TRemove cases for TreeRun.check_ecase2 with the directive and with the file as the root."""
+    for text, pname in GLUED_ITEM_TEXTS:
+        probe = gen_docs.parse_ok(text, False)
+        if probe is None:
+            ctx.dist('tree-edit-glued-unparsed')
+            continue
+        n = len(getattr(probe.raw_directives_with_comments[0], pname))
+        for i in range(n):
+            doc = gen_docs.parse_ok(text, False)
+            top = doc.raw_directives_with_comments[0]
+            from_file = r.random() < 0.5
+            root = doc if from_file else top
+            sites = [st for st in edit_sites(root) if st[0] == 'rep' and st[2] is top and st[3] == pname]
+            if not sites:
+                continue
+            kind, steps, m, _pn, fname = sites[0]
+            w = getattr(m, pname)
+            shape = 'only' if n == 1 else 'first' if i == 0 else 'last' if i == n - 1 else 'middle'
+            d = Dumper()
+            before = d.node(root)
+            meta = {'kind': 'remove-' + shape, 'text': text, 'auto_claim': False, 'class': type(m).__name__,
+                    'property': pname, 'path': steps, 'index': i, 'glued': True}
+            try:
+                if r.random() < 0.5:
+                    w.pop(i)
+                else:
+                    del w[i]
+            except Exception as e:  # noqa
+                ctx.dist('tree-edit-refused=' + common.exn_name(e))
+                continue
+            after = d.node(root)
+            ecases.append(f'TRemove {before} [{"; ".join(steps)}] {q(fname)} {i}%nat {after}')
+            emetas.append(meta)
+            ctx.case({'tree-edit': 'remove-' + shape + '-glued', 'class': type(m).__name__, 'property': pname, 'text': text})
+            ctx.dist('tree-edit-glued-remove')
+            probs = treewalk.wf_problems(doc, expect_whole_store=True)
+            if probs:
+                ctx.monitor_failure('C05:remove-edit', f'after remove-{shape} on {type(m).__name__}.{pname}: {probs[0]}',
+                                    dict(meta, problems=probs[:3]))
+
+
 def optional_edits(ctx, r, text, ac, pool, ocases, ometas):
     """Real optional-field edits (`m.raw_x = None`, `m.raw_x = fresh value`) on a freshly parsed document, each dumped
     before/after with one Dumper for TreeRun.check_ocase; the C05 statement is evaluated on the whole document after
@@ -356,6 +411,8 @@ def run(ctx: common.Ctx, prop: str):
     ecases, emetas, item_pool = [], [], {}
     n_docs = ctx.scale(60, 500)
     sd.set_load_factor(1000)
+    if prop == 'C05':
+        glued_item_removals(ctx, random.Random(ctx.rng.randrange(1 << 30)), ecases, emetas)
     for _ in range(n_docs):
         text = small_doc(ctx.rng)
         ac = ctx.rng.random() < 0.7
